@@ -274,9 +274,9 @@ where
         let mut filtered_kmers = Vec::new();
         let mut removed = 0;
 
-        if filter_ambig_as_missing {
-            self.update_counts(true);
-        }
+        // Counts stored in the file may have been computed with a different
+        // setting of `filter_ambig_as_missing` (e.g. by `ska weed`), so always recount
+        self.update_counts(filter_ambig_as_missing);
 
         for count_it in self
             .variant_count
